@@ -121,7 +121,7 @@ def build_data(spec, F):
     pops = spec.get("pops") or ["pa"]
     ptype_of = spec.get("pop_types") or {}
     popspec = {p: ({"label": "Pop " + p, "type": ptype_of[p]} if p in ptype_of else "Pop " + p) for p in pops}
-    D = at.ProjectData.new(F, np.array(years, dtype=float), pops=popspec, transfers={t["name"]: "T " + t["name"] for t in spec.get("transfers", [])})
+    D = at.ProjectData.new(F, np.array(years, dtype=float), pops=popspec, transfers={t["name"]: ({"label": "T " + t["name"], "type": t["ptype"]} if t.get("ptype") else "T " + t["name"]) for t in spec.get("transfers", [])})
     for c in spec["comps"]:
         if c.get("init") is not None:
             for pop, ts in D.tdve[c["name"]].ts.items():
